@@ -14,7 +14,10 @@ Demanded (property text):
   * it is relative, and stays inside the shared repeat, whenever the target's innermost enclosing repeat also
     (strictly) encloses the referrer -- except inside indexed-repeat(...) arguments, where absolute is by design;
   * ${last-saved#name} -> instance('__last-saved')<absolute path>, and that instance is declared;
-  * a relative replacement inside a predicate of an instance(...) path (choice filters included) starts with current()/;
+  * a relative replacement inside a predicate of an instance(...) path (choice filters included: itemset nodesets and
+    the query attribute of selects with external choices) starts with current()/;
+  * in the filter of a `select_one ${q}` (predicate of a primary-instance nodeset) every replacement arrives at the
+    target: from the select's node when anchored with current(), else from the candidate node of the nodeset;
   * no ${...} token survives anywhere in the output;
   * a reference to a name that no row has, or that several rows have, makes the conversion fail with a library
     error whose message contains the name.
@@ -463,12 +466,34 @@ def landings(doc: Doc, tree: STree, row: SRow, col, text: str):
             if sv.get("ref") == P and "odk-instance-first-load" in (sv.get("event") or "") and sv.get("value") is not None:
                 out.append((sv.get("value"), row.path, "", "", "dynamic default setvalue value"))
         return out
-    if key == "choice_filter" and lang is None and "${" not in row.type:
+    if key == "choice_filter" and lang is None and "${" in row.type:
+        # `select_one ${q}` (choices = the answers given to q in a repeat): the filter is the predicate of a path of
+        # the primary instance, nodeset[filter].  Inside it a path without current() starts from the candidate node
+        # the nodeset selects; current() is the select's own node.  The sixth field is the candidate's position.
+        for c in doc.controls.get(P, []):
+            for its in c.findall(f"{XF}itemset"):
+                ns = (its.get("nodeset") or "").strip()
+                if ns.startswith("randomize("):
+                    ns = ns[len("randomize("):]
+                pred = _predicate(ns)
+                kind, steps, _pv, inst, cur = eval_path(row.path, ns.split("[", 1)[0], doc.root)
+                if pred is not None and kind in ("abs", "rel") and inst is None and not cur:
+                    out.append((pred, row.path, "", "", "select-from-repeat filter", steps))
+        return out
+    if key == "choice_filter" and lang is None:
         for c in doc.controls.get(P, []):
             for its in c.findall(f"{XF}itemset"):
                 pred = _predicate(its.get("nodeset") or "")
                 if pred is not None and (its.get("nodeset") or "").lstrip().startswith(("instance(", "randomize(instance(")):
                     out.append((pred, row.path, "", "", "choice filter predicate"))
+            # selects with external choices (select_one_external ...) are written as <input query="instance('list')
+            # /root/item[filter]">: the filter is the predicate of a secondary instance there as well, and current()
+            # is the input's own node
+            q = c.get("query")
+            if q is not None and q.lstrip().startswith("instance("):
+                pred = _predicate(q)
+                if pred is not None:
+                    out.append((pred, row.path, "", "", "choice filter predicate of the query attribute"))
         return out
     if key == "parameters" and lang is None:
         m = re.search(r"seed\s*=\s*(\$\{[^}]*\})", text)
@@ -587,6 +612,24 @@ def judge(tok, repl: str, context: tuple, target: SRow, root: str, doc: Doc, whe
     return out
 
 
+def judge_candidate_predicate(tok, repl: str, context: tuple, candidate: tuple, target: SRow, root: str):
+    """One replaced reference inside the predicate of a primary-instance nodeset (select from a repeat's answers).
+    Only the clause 'identifies the instance node of the question' is demanded: an absolute path is the target's, a
+    path anchored with current() arrives at the target from the select's node, any other relative path arrives at
+    the target from the candidate node the predicate is applied to (XPath: the predicate's context node)."""
+    kind, steps, _pv, inst, cur = eval_path(context, repl, root)
+    if kind == "rel" and not cur:
+        kind, steps, _pv, inst, cur = eval_path(candidate, repl, root)
+    if kind != "bad" and inst is None and steps == target.path:
+        return []
+    frm = "/" + "/".join((root, *(context if cur or kind != "rel" else candidate)))
+    reached = "no node (not a path)" if kind == "bad" or inst is not None else "/" + "/".join((root, *steps))
+    return [_v("C03:select-from-repeat-filter-wrong-node",
+               f"${{{tok['name']}}} in the choice filter of /{'/'.join((root, *context))} (choices: the nodes "
+               f"/{'/'.join((root, *candidate))}) became '{repl.strip()}', which evaluated from {frm} reaches {reached}; "
+               f"the node of '{tok['name']}' is {target.xpath(root)}")]
+
+
 def check(case, res, ctx):
     wb = source_wb(case)
     tree = survey_tree(wb)
@@ -677,7 +720,7 @@ def check(case, res, ctx):
             outtxt, context, op, cl, what = cand[:5]
             reps = align_refs(src, outtxt, op, cl)
             if reps is not None and len(reps) == len(toks):
-                aligned = (reps, context, what)
+                aligned = (reps, context, what, *cand[5:6])
                 break
         if aligned is None:
             if strict:
@@ -685,9 +728,12 @@ def check(case, res, ctx):
                              f"column {key} of row '{row.name}': '{text}' does not match any of "
                              f"{[c[0].replace(chr(1), '<').replace(chr(2), '>')[:80] for c in cands]} modulo reference replacement"))
             continue
-        reps, context, what = aligned
+        reps, context, what = aligned[:3]
         for tok, repl in zip(toks, reps):
             target = names[tok["name"]][0]
+            if what == "select-from-repeat filter":
+                vs.extend(judge_candidate_predicate(tok, repl, tuple(context), tuple(aligned[3]), target, doc.root))
+                continue
             vs.extend(judge(tok, repl, tuple(context), target, doc.root, doc, what))
         if key == "repeat_count" and not re.fullmatch(r"\$\{[^}]*\}", text):
             # the repeat's jr:count must reach the generated count node from the repeat
@@ -1160,6 +1206,108 @@ def random_deep(rnd, n_forms):
     return out
 
 
+# Every way a choice filter / an expression ends up as the predicate of a secondary instance: `mk(name, filter, seed)`.
+# (select_one_external is written as <input query="instance('e')/root/item[filter]">, the others as an itemset
+# nodeset or a bind attribute.)
+PREDICATE_KINDS = [
+    ("sel1", lambda nm, f, s: {"type": "select_one l", "name": nm, "label": "Q", "choice_filter": f}),
+    ("selm", lambda nm, f, s: {"type": "select_multiple l", "name": nm, "label": "Q", "choice_filter": f}),
+    ("rand", lambda nm, f, s: {"type": "select_one l", "name": nm, "label": "Q", "choice_filter": f,
+                               "parameters": "randomize=true, seed=${%s}" % s}),
+    ("ext1", lambda nm, f, s: {"type": "select_one_external e", "name": nm, "label": "Q", "choice_filter": f}),
+    ("ext2", lambda nm, f, s: {"type": "select_one_external e2", "name": nm, "label": "Q ${%s}" % s, "choice_filter": f,
+                               "relevant": "${%s} != ''" % s}),
+    ("csv", lambda nm, f, s: {"type": "select_one_from_file fcsv.csv", "name": nm, "label": "Q", "choice_filter": f}),
+    ("xml", lambda nm, f, s: {"type": "select_multiple_from_file fxml.xml", "name": nm, "label": "Q", "choice_filter": f}),
+    ("geojson", lambda nm, f, s: {"type": "select_one_from_file fgeo.geojson", "name": nm, "label": "Q", "choice_filter": f}),
+    ("calc", lambda nm, f, s: {"type": "calculate", "name": nm, "calculation": f"instance('l')/root/item[{f}]/label"}),
+    ("rel", lambda nm, f, s: {"type": "text", "name": nm, "label": "Q",
+                              "relevant": f"count(instance('e')/root/item[{f}]) > ${{{s}}}"}),
+]
+EXTERNAL_CHOICES = (["list_name", "name", "x"], [["e", "c1", "1"], ["e", "c2", "2"], ["e2", "d1", "1"]])
+
+_FILTER_SHAPES = ["x={r}", "x = {r}", "name != {r}", "selected({r}, name)", "x >{r}", "{r}=x", "contains(name, {r})"]
+
+
+def _predicate_text(names, variant):
+    """A filter body that references every name once, in a mix of spellings (with / without blanks around the
+    reference, reference first / last / inside a call), joined with and / or."""
+    parts = [_FILTER_SHAPES[(variant + j) % len(_FILTER_SHAPES)].format(r="${%s}" % n) for j, n in enumerate(names)]
+    out = parts[0]
+    for j, p in enumerate(parts[1:]):
+        out += (" and " if (variant + j) % 2 == 0 else " or ") + p
+    return out
+
+
+def predicate_case(name, chain, pool, order="before", variant=0, kinds=None, styled=False):
+    """One form: nested containers chain[i] in 'gr' (names from pool); at every level i = 0..len(chain) a target
+    question t<i> and a target u<i> inside a side group sg<i> of that level, and one question of every secondary-
+    instance-predicate kind whose filter references all targets of all levels (same repeat, outer repeats, outside
+    any repeat, and - for the levels below - inside deeper repeats)."""
+    n = len(chain)
+    tn = [(f"{pool[i]}_t" if styled and i < n else f"t{i}") for i in range(n + 1)]
+    un = [(f"{pool[i]}_" if styled and i < n else f"u{i}") for i in range(n + 1)]
+    allrefs = [x for i in range(n + 1) for x in (tn[i], un[i])]
+    kinds = kinds or PREDICATE_KINDS
+    rows = []
+
+    def targets(i):
+        rows.append({"type": "text", "name": tn[i], "label": f"T{i}"})
+        rows.append({"type": "begin group", "name": f"sg{i}", "label": f"SG{i}"})
+        rows.append({"type": "integer", "name": un[i], "label": f"U{i}"})
+        rows.append({"type": "end group"})
+
+    def level(i):
+        if order == "before":
+            targets(i)
+        for j, (kname, mk) in enumerate(kinds):
+            refs = allrefs[(variant + i + j) % len(allrefs):] + allrefs[:(variant + i + j) % len(allrefs)]
+            rows.append(mk(f"q{i}{kname}", _predicate_text(refs, variant + i + j), tn[i] if order == "before" else tn[0]))
+        # `select_one ${t}`: the answers given to t<k> / u<k> (inside a repeat) are the choices, filtered by a predicate
+        # that references the question itself and the targets of all levels
+        for k in range(n + 1):
+            if "r" in chain[:k]:
+                src = (tn, un)[(variant + i + k) % 2][k]
+                refs = [src] + [x for x in allrefs if x != src]
+                rows.append({"type": ("select_one ${%s}", "select_multiple ${%s}")[(variant + k) % 2] % src,
+                             "name": f"q{i}from{k}", "label": "Q",
+                             "choice_filter": _predicate_text(refs, variant + i + k).replace("name", "'nm'")})
+        if i < n:
+            rows.append({"type": "begin repeat" if chain[i] == "r" else "begin group", "name": pool[i], "label": f"S{i}"})
+            level(i + 1)
+            rows.append({"type": "end repeat" if chain[i] == "r" else "end group"})
+        if order != "before":
+            targets(i)
+
+    level(0)
+    wb = _wrap(rows, extra={"external_choices": EXTERNAL_CHOICES})
+    return Case(name, md=corpus.wb_to_md(wb), origin="c03-family")
+
+
+def predicate_family(tier, rnd):
+    """References inside predicates of secondary instances (itemset nodesets, the query attribute of selects with
+    external choices, instance() paths in bind expressions) from every placement among groups and repeats: every
+    chain of containers up to depth 3 (quick; depth 4 sampled) or 4 (thorough; deeper random), targets at every
+    level, declared before or after the referrers."""
+    out = []
+    pools = ["plain", "prefix", "chain", "chain-rev"]
+    k = 0
+    full = 3 if tier == "quick" else 4
+    chains = ["".join(c) for d in range(0, full + 1) for c in itertools.product("gr", repeat=d)]
+    if tier == "quick":
+        chains += ["rrrr", "rgrg", "grgr", "rrgr", "rggr", "grrg"]
+    else:
+        chains += ["".join(rnd.choice("grr") for _ in range(rnd.randint(5, 6))) for _ in range(40)]
+    for chain in chains:
+        for order in ("before", "after"):
+            use = [pools[k % len(pools)]] if tier == "quick" else pools
+            for pn in use:
+                k += 1
+                out.append(predicate_case(f"c03-pred-{chain or 'root'}-{order}-{pn}-{k}", chain, NAME_POOLS[pn], order,
+                                          variant=k, styled=(k % 3 == 0)))
+    return out
+
+
 def cases(tier, seed):
     rnd = random.Random(seed * 7919 + 3)
     out = []
@@ -1174,4 +1322,5 @@ def cases(tier, seed):
         out += random_deep(rnd, 1500)
     out += ambiguity_family()
     out += special_family()
+    out += predicate_family(tier, random.Random(seed * 7919 + 5))
     return out
